@@ -10,18 +10,24 @@
    g_extra_debuginfo_lookup, g_binary_lookup, g_moz_lookup, g_join_rel_enc.  C17/Tie.v proves them equal to
    C17/Model.v; this file does not depend on that proof, so a checkout whose source compiles to a DIFFERENT model is
    still compared with its own code. *)
-From RM Require Import C17.Model C17.Prims Gen.C17Lookup.
+From RM Require Import C17.Model C17.Prims C17.IdModel Gen.C17Lookup.
 Open Scope Z_scope.
 
 Definition mk_module (code_file : str) (debug_file dbg_id code_id : option str) : module_view :=
   {| m_code_file := code_file; m_code_identifier := code_id; m_debug_file := debug_file; m_debug_identifier := dbg_id |}.
 
-(* DebugId::from_breakpad(..).breakpad().to_string() on canonical input: "{:X}{:x}" *)
+(* DebugId::from_breakpad(text).breakpad().to_string(): parse to the VALUE (C17/IdModel.v: 8 or 32 hex digits +
+   appendix as a u32) and render it ("{:08X}{:x}" / "{:X}{:x}"); text that does not parse is never generated (the
+   harness `expect`s the parse) and falls back to case conversion. *)
 Definition render_breakpad (raw : str) : str :=
-  let k := if Z.of_nat (length raw) <=? 16 then 8%nat else 32%nat in
-  map upper (firstn k raw) ++ map lower (skipn k raw).
+  match parse_breakpad raw with
+  | Some d => breakpad_text d
+  | None =>
+      let k := if Z.of_nat (length raw) <=? 16 then 8%nat else 32%nat in
+      map upper (firstn k raw) ++ map lower (skipn k raw)
+  end.
 (* CodeId::new: retain(is_ascii_hexdigit); make_ascii_lowercase *)
-Definition code_id_new (raw : str) : str := map lower (filter is_hex raw).
+Definition code_id_new (raw : str) : str := code_id_text raw.
 
 Definition lookup_eqb (a b : option file_lookup) : bool :=
   match a, b with
